@@ -353,7 +353,9 @@ def plan(prop, tier):
         done = set()
         for j in c.jobs:
             if j.flavour not in done:
-                j.extra = list(j.extra) + ["exhaustive"]
+                # (under ASan the deepest level of the thorough enumeration alone takes 40 minutes:
+                # one level less there; the rel flavour goes to the full depth)
+                j.extra = list(j.extra) + ["exhaustive"] + (["maxlen=9"] if tier != "quick" and j.flavour == "asan" else [])
                 done.add(j.flavour)
         return c
     if prop == "C19":
